@@ -3,7 +3,8 @@
 package props
 
 // C07 — a graph that compiles cannot hit a type mismatch between concretely typed nodes.
-// Construction sequences over the 9-type menu (lambdas for every (in,out) pair, pass-through
+// Construction sequences over the type menu (c20types.go + c07_types.go: 17 types, among them
+// defined types next to their unnamed literals; lambdas for every (in,out) pair, pass-through
 // nodes, branches, state handlers) in random call order; observables: class of every call
 // (ok / error / panic), and, when the graph compiled, the class of runs with a START value
 // of every dynamic type: ok / ordinary error / panic.  Compared with oracle_C07.
